@@ -48,6 +48,9 @@ pub enum Act {
     HoldStream(usize),
     ReleaseStream(usize),
     Term(TermAct),
+    /// after run() ended on a cause: connect the same Context again (0 = session resumed, 1 = resumed under Receive
+    /// Maximum 2, 2 = long after the disconnection, 3 = without a recorded disconnection) and run
+    Reconnect(u8),
     DropCtx,
     HoldCtx,
     ReleaseCtx,
@@ -83,6 +86,8 @@ pub struct Alpha {
     pub writer_stall: bool,
     /// allow client actions after a terminating cause (they queue behind it)
     pub after_term: bool,
+    /// after run() ended, the same Context may be connected again and the script goes on
+    pub reconnect: bool,
 }
 
 impl Default for Alpha {
@@ -110,6 +115,7 @@ impl Default for Alpha {
             race: false,
             writer_stall: false,
             after_term: false,
+            reconnect: false,
         }
     }
 }
@@ -232,6 +238,14 @@ pub fn enabled(w: &World, a: &Alpha) -> Vec<Act> {
             v.push(Act::Term(t));
         }
     }
+    if a.reconnect && can_reconnect(w) {
+        for k in 0..3u8 {
+            v.push(Act::Reconnect(k));
+        }
+        if w.unfinished().0.is_empty() && w.unfinished().1.is_empty() {
+            v.push(Act::Reconnect(3));
+        }
+    }
     if a.drop_ctx {
         v.push(Act::DropCtx);
     }
@@ -252,8 +266,42 @@ pub fn enabled(w: &World, a: &Alpha) -> Vec<Act> {
     v
 }
 
+/// run() has returned on a terminating cause, the context and a handle are still there, and nothing is pending whose
+/// fate across connections the properties do not settle (only unfinished QoS 1/2 handshakes may be carried over).
+pub fn can_reconnect(w: &World) -> bool {
+    if w.term.is_none() || !w.term_checked || w.ctx_dropped || w.reconnects >= 3 || w.blind {
+        return false;
+    }
+    if matches!(w.term, Some(Term::HandlesDropped)) || w.sim.handles[0].is_none() || w.sim.hold_ctx || w.sim.writer.0.borrow().stalled {
+        return false;
+    }
+    if !w.sim.ctx_alive() || w.sim.ctx_in_call().is_some() {
+        return false;
+    }
+    for (i, m) in w.m.iter().enumerate() {
+        let alive = w.sim.ops[i].task.alive();
+        if alive && m.after_term {
+            return false;
+        }
+        if alive && m.submitted && !(m.kind.is_qos_pub() && m.req_wire.is_some()) {
+            return false;
+        }
+        if m.kind == Kind::Ping && m.req_wire.is_some() && !m.ack1 {
+            return false;
+        }
+    }
+    true
+}
+
 pub fn apply(w: &mut World, act: Act) {
     match act {
+        Act::Reconnect(k) => {
+            let interval = w.sei.unwrap_or(0);
+            let ago: u64 = if k == 2 { 1_000_000 } else { 1 };
+            let expired = k != 3 && (interval == 0 || (interval != u32::MAX && ago > interval as u64));
+            let o = ResumeOpts { secs_ago: ago, sei: w.sei, receive_max: if k == 1 { Some(2) } else { None }, expect_expired: expired, plain: k == 3, ..Default::default() };
+            w.resume_full(o);
+        }
         Act::Start(k) => {
             let h = if w.sim.handles.len() > 1 && w.m.len() % 2 == 1 && w.sim.handles[1].is_some() { 1 } else { 0 };
             if w.sim.handles[h].is_some() {
